@@ -105,12 +105,19 @@ func (f FnGen) Val(kind string, subject string) jv.Val {
 		}
 		return jv.VNumText(Pick(t, "count", countTexts))
 	case "str":
+		if rs := []rune(subject); len(rs) > 0 && Chance(t, "lowbyte", 1, 6) {
+			// the ASCII characters that the first and last character of the
+			// subject turn into when only their low byte (or low 7 bits) is
+			// kept: a table indexed by byte(r) confuses them
+			first, last := rs[0], rs[len(rs)-1]
+			return jv.VStr(string([]rune{first & 0xff & 0x7f, last & 0x7f, ' '}))
+		}
 		if Chance(t, "subj", 1, 2) {
 			return jv.VStr(f.subject())
 		}
 		return jv.VStr(Str(t))
 	case "padded":
-		ws := []string{"", " ", "  ", "\t", "\n ", "　", " ", "x", "xy"}
+		ws := []string{"", " ", "  ", "\t", "\n ", "　", " ", "x", "xy", "š", "č", "中", "а", "\u0120", "\u2020", "\u0109", "\U00010020", "ń"}
 		return jv.VStr(Pick(t, "lws", ws) + Pick(t, "core", []string{"a", "a b", "", "é", "xax", "subject string"}) + Pick(t, "rws", ws))
 	case "str1":
 		return jv.VStr(Pick(t, "pad", []string{"-", " ", "0", "é", "日", "😀", "", "ab", "--", "éé", "́"}))
